@@ -5,15 +5,11 @@
            1: they differ (or the model cannot follow the labels) but the predicate holds;
            2: the outcome predicate fails on the implementation's observation. *)
 From Coq Require Import List Arith Bool NArith.
-From Crux Require Import Conc.Waker.
+From Crux Require Conc.Waker Conc.Events Conc.Slots.
+Import Conc.Waker.
 Import ListNotations.
 
-Fixpoint nat_list_eqb (a b : list nat) : bool :=
-  match a, b with
-  | [], [] => true
-  | x :: a', y :: b' => Nat.eqb x y && nat_list_eqb a' b'
-  | _, _ => false
-  end.
+Definition nat_list_eqb := Events.nat_list_eqb.
 
 Definition maxN (a b : N) : N := if N.ltb a b then b else a.
 
@@ -65,3 +61,70 @@ Definition p2_verdict (c : p2case) : N :=
   if C08_e2e_p2 streams ends done then v else 2%N.
 
 Definition p2_verdicts (cs : list p2case) : list N := map p2_verdict cs.
+
+(* ---------- P3 (Events.v) and P1 (Slots.v): one Core-level run carries both label sequences ---------- *)
+
+(* P3 part: labels, the implementation's final log, the values view() returned (in call order),
+   (task, number of events it sent), the codes of the events given to process_event *)
+Definition p3part := (list Events.label * list Events.ev * list (list Events.ev) * list (nat * nat) * list nat)%type.
+
+Definition count_direct (l : list Events.ev) (d : nat) : nat :=
+  length (filter (fun e => match e with Events.Direct n => Nat.eqb n d | _ => false end) l).
+
+Definition sent_task (sent : list (nat * nat)) (k : nat) : bool := existsb (fun kn => Nat.eqb (fst kn) k) sent.
+
+(* the final log: every task's events exactly once and in the order sent, nothing from an unknown
+   task, every process_event argument exactly once; every view a prefix of it *)
+Definition C08_e2e_p3 (log : list Events.ev) (views : list (list Events.ev)) (sent : list (nat * nat)) (directs : list nat) : bool :=
+  Events.C08_log_ok sent log &&
+  forallb (fun e => match e with Events.Emitted k _ => sent_task sent k | Events.Direct d => existsb (Nat.eqb d) directs end) log &&
+  forallb (fun d => Nat.eqb (count_direct log d) 1) directs &&
+  forallb (Events.C08_view_ok log) views.
+
+Fixpoint ev_lists_eqb (a b : list (list Events.ev)) : bool :=
+  match a, b with
+  | [], [] => true
+  | x :: a', y :: b' => Events.ev_list_eqb x y && ev_lists_eqb a' b'
+  | _, _ => false
+  end.
+
+Definition p3_verdict (c : p3part) : N :=
+  let '(ls, log, views, sent, directs) := c in
+  let agree :=
+    match Events.run Events.PopUnderLock ls Events.init with
+    | None => false
+    | Some s => Events.ev_list_eqb (Events.log s) log &&
+                ev_lists_eqb (rev (map snd (Events.views s))) views &&
+                match Events.chan s with [] => true | _ => false end
+    end in
+  if C08_e2e_p3 log views sent directs then (if agree then 0%N else 1%N) else 2%N.
+
+(* P1 part: labels, expected effect identities, (thread, effect) returned by the calls,
+   queue lengths after the join (spawn, ready, events, effects), effects returned by the no-op
+   probe, whether the probe found the core idle and every live stream still accepted a value *)
+Definition p1part := (list Slots.label * list nat * list (nat * nat) * (nat * nat * nat * nat) * nat * bool)%type.
+
+Definition C08_e2e_p1 (expected : list nat) (returned : list (nat * nat)) (lens : nat * nat * nat * nat)
+  (probe_effects : nat) (probes_ok : bool) : bool :=
+  let '(a, b, c, d) := lens in
+  Slots.C08_effects_ok expected (map snd returned) && Slots.C08_queues_ok a b c d &&
+  Nat.eqb probe_effects 0 && probes_ok.
+
+Definition rets_of (t : nat) (l : list (nat * nat)) : list nat :=
+  map snd (filter (fun p => Nat.eqb (fst p) t) l).
+
+Definition p1_verdict (c : p1part) : N :=
+  let '(ls, expected, returned, lens, pe, pok) := c in
+  let agree :=
+    match Slots.run ls Slots.init with
+    | None => false
+    | Some s =>
+        forallb (fun t => nat_list_eqb (rets_of t (Slots.rets s)) (rets_of t returned)) (map fst returned ++ map fst (Slots.rets s)) &&
+        forallb (fun t => match Slots.pcs s t with Slots.Out false => true | _ => false end) [0; 1; 2; 3; 99] &&
+        match Slots.ready s, Slots.spawnq s, Slots.effs s with [], 0, [] => true | _, _, _ => false end
+    end in
+  if C08_e2e_p1 expected returned lens pe pok then (if agree then 0%N else 1%N) else 2%N.
+
+Definition ccase := (p3part * p1part)%type.
+Definition core_verdict (c : ccase) : N := maxN (p3_verdict (fst c)) (p1_verdict (snd c)).
+Definition core_verdicts (cs : list ccase) : list N := map core_verdict cs.
